@@ -36,7 +36,7 @@ ASSUMPTIONS = [
 def GATES(tier):
     return [("constructions_judged", 1500), ("hierarchies", 60), ("handwritten_parent_calls_compared", 200), ("post_init_checked", 300), ("unknown_kw_rejected", 100), ("overflow_collected", 50),
             ("nonconforming_rejected", 100), ("key_positional", 30), ("key_missing_rejected", 10), ("two_parents", 10), ("plain_grandchild", 10), ("spec_grandchild", 10), ("init_false_parent", 5),
-            ("redeclared_attr", 20), ("redefaulted_attr", 20), ("parent_post_init", 10), ("key_redefaulted", 3), ("plain_middle", 5), ("colliding_parents", 20), ("key_default_factory", 8), ("bare_redeclaration", 10), ("overflow_with_wildcard_dependant", 10), ("plain_subclass_post_init", 10)]
+            ("redeclared_attr", 20), ("redefaulted_attr", 20), ("parent_post_init", 10), ("key_redefaulted", 3), ("plain_middle", 5), ("colliding_parents", 20), ("key_default_factory", 8), ("bare_redeclaration", 10), ("overflow_with_wildcard_dependant", 10), ("plain_subclass_post_init", 10), ("diamond_cases", 10), ("keyed_parent_ctor_cases", 20)]
 
 
 class H:
@@ -352,7 +352,146 @@ class H:
         return ("ok", None), state, calls
 
 
+DIAMOND_SRC = """
+from spec_classes import spec_class, Attr
+
+@spec_class(bootstrap={boot})
+class Base:
+    x: int = 1
+    y: int = 2
+    z: int = 3
+
+@spec_class(bootstrap={boot})
+class Left(Base):
+    l: int = 30
+
+@spec_class(bootstrap={boot})
+class Right(Base):
+    x: int = 10                                    # re-declared with a new default
+    y: int = Attr(default_factory=lambda: 20)      # ... with a default factory
+    z: str = "three"                               # ... with another type
+
+@spec_class(bootstrap={boot})
+class Both(Left, Right):       # MRO: Both, Left, Right, Base
+    b: int = 4
+
+@spec_class(bootstrap={boot})
+class Htob(Right, Left):       # MRO: Htob, Right, Left, Base
+    b: int = 4
+"""
+
+
+KEYED_SRC = """
+from spec_classes import spec_class, Attr
+
+@spec_class(key="k", bootstrap={boot})
+class HW:                      # documented shape of a hand-written constructor; the key has a default
+    k: str = "a"
+    x: int
+    def __init__(self, k="a", x=100):
+        self.k = k + "!"
+        self.x = x + 1
+
+@spec_class(bootstrap={boot})
+class HWChild(HW):
+    y: int = 2
+
+@spec_class(key="k", bootstrap={boot})
+class HWReq:                   # ... the key is a required parameter
+    k: str
+    x: int
+    def __init__(self, k, x=100):
+        self.k = k
+        self.x = x + 1
+
+@spec_class(bootstrap={boot})
+class HWReqChild(HWReq):
+    y: int = 2
+
+@spec_class(key="k", bootstrap={boot})
+class NK:                      # the key is not a constructor parameter at all
+    k: str = Attr(default="kk", init=False)
+    x: int = 1
+
+@spec_class(bootstrap={boot})
+class NKChild(NK):
+    y: int = 2
+
+class NKPlain(NK):
+    pass
+
+@spec_class(key="k", bootstrap={boot})
+class NKPost:                  # ... and is derived in __post_init__
+    k: str = Attr(init=False)
+    x: int = 1
+    def __post_init__(self):
+        self.__dict__['pi_count'] = self.__dict__.get('pi_count', 0) + 1
+        self.k = "id%d" % self.x
+
+@spec_class(bootstrap={boot})
+class NKPostChild(NKPost):
+    y: int = 2
+"""
+
+RAISES = (TypeError, ValueError)
+
+DIRECTED = [
+    # (source, feature, description, attrs observed, {class: [(args, kwargs, expectation)]})
+    (DIAMOND_SRC, "diamond", "diamond Base <- Left, Right(re-declares x, y, z)", ("x", "y", "z", "l", "b"), {
+        cname: [
+            ((), {}, {"x": 10, "y": 20, "z": "three", "l": 30, "b": 4}),
+            ((), {"x": 5, "l": 6}, {"x": 5, "y": 20, "z": "three", "l": 6, "b": 4}),
+            ((), {"z": "s"}, {"x": 10, "y": 20, "z": "s", "l": 30, "b": 4}),
+            ((), {"z": 7}, RAISES),
+            ((), {"x": "s"}, RAISES),
+        ] for cname in ("Both", "Htob")}),
+    (KEYED_SRC, "keyed_parent_ctor", "keyed parents whose key is an optional / required / no constructor parameter", ("k", "x", "y", "pi_count"), {
+        "HWChild": [((), {}, {"k": "a!", "x": 101, "y": 2}), (("z",), {}, {"k": "z!", "x": 101, "y": 2}), ((), {"k": "z", "x": 5}, {"k": "z!", "x": 6, "y": 2}),
+                    ((), {"y": 7}, {"k": "a!", "x": 101, "y": 7}), ((), {"q": 1}, (TypeError,))],
+        "HWReqChild": [(("z",), {}, {"k": "z", "x": 101, "y": 2}), ((), {"k": "z", "x": 5, "y": 3}, {"k": "z", "x": 6, "y": 3}), ((), {}, (TypeError,))],
+        "NK": [((), {}, {"k": "kk", "x": 1}), ((), {"k": "z"}, (TypeError,))],
+        "NKChild": [((), {}, {"k": "kk", "x": 1, "y": 2}), ((), {"x": 3}, {"k": "kk", "x": 3, "y": 2}), ((), {"y": 5}, {"k": "kk", "x": 1, "y": 5}), ((), {"k": "z"}, (TypeError,)),
+                    ((), {"x": "s"}, RAISES)],
+        "NKPlain": [((), {}, {"k": "kk", "x": 1}), ((), {"x": 3}, {"k": "kk", "x": 3})],
+        "NKPost": [((), {"x": 4}, {"k": "id4", "x": 4, "pi_count": 1})],
+        "NKPostChild": [((), {}, {"k": "id1", "x": 1, "y": 2, "pi_count": 1}), ((), {"x": 4, "y": 3}, {"k": "id4", "x": 4, "y": 3, "pi_count": 1})],
+    }),
+]
+
+
+def directed_cases(ctx):
+    """Hand-written hierarchies outside the generator's shapes: the nearest class along the MRO that (re-)declares an
+    attribute decides its default and type (diamond); a parent's key reaches the parent constructor only as that
+    constructor takes it."""
+    for src, feature, what, observed, table in DIRECTED:
+        for boot in (True, False):
+            ns = cg.exec_module(src.format(boot=boot), prefix="verif_c09d").__dict__
+            for cname, cases in table.items():
+                for args, kw, want in cases:
+                    ctx.count("constructions_judged")
+                    ctx.count(f"{feature}_cases")
+                    call = ", ".join([repr(a) for a in args] + [f"{k}={v!r}" for k, v in kw.items()])
+                    label = f"{cname}({call}) [{what}; lazy={not boot}]"
+                    feats = {"features": [feature], "level": 2, "cls_kind": "spec", "ctor": "generated", "case_kind": feature, "key_mode": None, "lazy": not boot}
+                    case = [feature, cname, boot, list(args), sorted(kw)]
+                    try:
+                        inst = ns[cname](*args, **kw)
+                        got = {k: getattr(inst, k) for k in observed if hasattr(inst, k)}
+                    except Exception as e:
+                        got = e
+                    if isinstance(want, tuple):
+                        if not isinstance(got, want):
+                            ctx.violation("constructor_rejects", f"{label}: expected {[w.__name__ for w in want]} but got {safe_repr(got, 100)}", features=feats, case=case)
+                    elif isinstance(got, Exception):
+                        ctx.violation("constructor_accepts", f"{label}: raised {type(got).__name__}: {safe_repr(got, 120)}; the model constructs {want}", features=dict(feats, exc=type(got).__name__), case=case)
+                    elif got != want:
+                        ctx.violation("constructor_state", f"{label}: attributes {got}, the declarations along the MRO give {want}", features=feats, case=case)
+            ctx.sig(feature, boot)
+
+
 def run(ctx, params):
+    if params.get("directed"):
+        return directed_cases(ctx)
     rng = ctx.rng
     for hi in range(params["hierarchies"]):
         h = H(rng)
@@ -472,5 +611,5 @@ def run(ctx, params):
 
 def plan(tier, seed):
     if tier == "quick":
-        return [{"shard": i, "hierarchies": 60, "max_subsets": 16} for i in range(16)]
-    return [{"shard": i, "hierarchies": 2500, "max_subsets": 64} for i in range(32)]
+        return [{"directed": True}] + [{"shard": i, "hierarchies": 60, "max_subsets": 16} for i in range(16)]
+    return [{"directed": True}] + [{"shard": i, "hierarchies": 2500, "max_subsets": 64} for i in range(32)]
